@@ -74,6 +74,9 @@ CHECKS = {
  "C22": (E1, "fault enumeration: every history of a bounded set x every user-code callback point reached in it gets a marker panic injected (one run per point) on a fresh real database; the rest of the history and a later revision are compared with the reference",
          "25 programs (plain DAGs, tracked structs incl. colliding identities, interning, specify, fixpoint / joining / fallback cycles) x all histories of depth 2-3 x every callback point (body entry / between reads / exit, cycle_initial, cycle_fn, cycle_result, PartialEq of results and tracked fields, Hash/Eq of identity and interned fields, event callback): the marker must reach the caller of that operation; afterwards, with the panic gone, every request in the same revision (functions depending on a cycle may answer PropagatedPanic there) and every request after one more revision equals the from-scratch reference. Genuine defects found are listed as known findings.",
          "Sequential part only in this round (the waiting-second-thread part is covered by C19/C20/C21 schedules). Injection is suppressed while already unwinding.", "5/C22"),
+ "C23": (E1, "bounded-exhaustive history enumeration (the quick history sets of C01, C05-C08, C10-C13, C15 and the panic injection of C22) executed on the real code under a quarantining, poisoning, red-zoned, epoch-accounting global allocator, with every returned reference re-read before the next mutable borrow of the database and a run-twice leak check",
+         "Every history of the borrowed sets (writes, evictions, struct deletion, interned reclamation, fixpoint / fallback cycles, non-convergence panics, cancellation, and for the C22 set a panic injected at every callback point) is run twice on fresh databases in one process under an allocator that (a) surrounds each block with a header and red zones checked on free (out-of-bounds writes, invalid and double frees), (b) poisons freed blocks and keeps them in a quarantine for the rest of the history so that every read through a dangling pointer sees the poison (values carry a canary pattern that is checked on every read; every reference handed out by a tracked function or field getter is retained as a raw pointer and re-read just before the next mutable borrow: it must still hold the value it had), and checks the poison when the quarantine is drained (write after free), (c) tags blocks with an allocation epoch: no block allocated during the second run may be live after its database was dropped. A crash of a worker process is attributed to the case it was running and reported as a violation.",
+         "Detection is through effects: an out-of-bounds or dangling READ whose result salsa discards is invisible to these monitors (Miri/ASan runs were not built in this round); red zones are 16 bytes behind / 24 bytes before a block. Single-threaded histories only. The allocator monitor is self-tested at the start of every worker.", "5/C23"),
  "C25": ("E4 edgex", "exhaustive enumeration of edge sequences over boundary classes of the compact encoding, through read-only hook H1, in the default and the persistence configuration",
          "Every sequence of up to 2 (quick) / 3 (thorough) edges over 240 edge values (kind x ingredient {0,1,0xFFE,0xFFF,0x1000,0x7FFFFFFF} x index {0,1,2^31,max} x generation {0,1,0xFFFFF,0x100000,u32::MAX}) x origin kind x 5 combinations of extra revision data is stored through salsa's constructors: decoded edges equal the sequence in order, kind and key (forward and reverse), the input and output views partition it, attaching extra data later and clearing the edges preserve edges / extra data, and (persistence build) a serde round trip of the revisions decodes to the same edges and extra data.",
          "Hook H1 (cargo feature salsa_verif) only re-exports construction/decoding; no logic. Longer sequences are outside the bound.", "5/C25"),
